@@ -154,6 +154,32 @@ def check(rep):
                          expected="identical renderings", observed="different")
     except Exception as e:  # noqa
         rep.fail("correspondence", f"extraction check could not be evaluated: {str(e)[:200]}", {"layer": "extraction"}, expected="kernel evaluation", observed=fw.exc_class(e))
+    # ---- the mixture specification: the mass (or percentage) of Molecule(text).mixture is the number written between the bars, in every float
+    # syntax; a specifier without a number gives a mixture without masses
+    import warnings
+    n_mix = 0
+    for body in ["CC", "C{[$][$]CC[$][$]}|gauss(100, 10)|C", "OC{[<][<]CCO[>][>]}|poisson(65)|[H]"]:
+        for num in ["2", "0.5", "3.", "1e1", ".25", " 2 ", "1_0", ".5", "5.", "5e-1", "+7", "0", "12.5", "100", "1e2", " .5", "0.125 ", ".5e1", "00.5", "x", " "]:
+            for pct in ("", "%"):
+                t = f"{body}.|{num}{pct}|"
+                ident = {"layer": "mixture", "text": t}
+                try:
+                    want = float(num)
+                except ValueError:
+                    want = None
+                evaluations += 1
+                n_mix += 1
+                try:
+                    with warnings.catch_warnings():
+                        warnings.simplefilter("ignore")
+                        mx = gbigsmiles.Molecule(t).mixture
+                    got = (mx.absolute_mass, mx.relative_mass)
+                except Exception as e:  # noqa
+                    got = fw.exc_class(e)
+                exp = ("Value" if pct else (None, None)) if want is None else ((None, want) if pct else (want, None))
+                if got != exp:
+                    rep.fail("oracle", f"mixture specification of {t!r} read as {got}", ident, expected=str(exp), observed=str(got))
+    rep.coverage["mixture_specifications_checked"] = n_mix
     rep.coverage["molecules_vs_model"] = len(mtexts)
     rep.coverage["molecules_accepted"] = n_molk
     rep.coverage["objects_vs_model"] = len(objs)
